@@ -632,6 +632,34 @@ func c16ExpString(t *c16Txn) string {
 
 // ---------------------------------------------------------------- cases
 
+// c16KnownShapes adds a commodity KFX priced in base on three days and two asset accounts
+// holding it: the income account mirroring the first is opened by the journal only after the
+// first price change, the one mirroring the second is closed before the last price change.
+func c16KnownShapes(j *gen.Journal, base string) {
+	d0 := j.Dirs[0].Date
+	for _, d := range j.Dirs {
+		if d.Date < d0 {
+			d0 = d.Date
+		}
+	}
+	open := func(day cal.Day, acc string) gen.Dir { return gen.Dir{Kind: gen.KOpen, Date: day, Acc: acc} }
+	price := func(day cal.Day, p string) gen.Dir {
+		return gen.Dir{Kind: gen.KPrice, Date: day, Com: "KFX", Tgt: base, Price: p}
+	}
+	buy := func(day cal.Day, acc string) gen.Dir {
+		return gen.Dir{Kind: gen.KTxn, Date: day, Desc: "kf " + acc, Bookings: []gen.Booking{{Credit: "Equity:Kf", Debit: acc, Qty: "10", Com: "KFX"}}}
+	}
+	j.Dirs = append(j.Dirs,
+		open(d0, "Assets:Kf:Early"), open(d0, "Assets:Kf:Late"), open(d0, "Equity:Kf"), open(d0, "Income:Kf:Late"),
+		price(d0, "2"),
+		buy(d0+1, "Assets:Kf:Early"), buy(d0+1, "Assets:Kf:Late"),
+		price(d0+2, "3"),
+		open(d0+3, "Income:Kf:Early"),
+		gen.Dir{Kind: gen.KClose, Date: d0 + 5, Acc: "Income:Kf:Late"},
+		price(d0+6, "4"),
+	)
+}
+
 func (k *c16) RunCase(c *core.Ctx, i int) {
 	r := c.Rng(i, "journal")
 	o := gen.DefaultOpts(r)
@@ -651,6 +679,13 @@ func (k *c16) RunCase(c *core.Ctx, i int) {
 	if r.Intn(6) == 0 {
 		gen.ShiftFar(r, j, 4)
 		c.Count("journals_with_dates_beyond_2262", 1)
+	}
+
+	// the first two journals of every run also hold the three shapes listed in
+	// known-findings.txt, so that each listed finding is re-examined by every run
+	if i < 2 {
+		c16KnownShapes(j, info.Commodities[0])
+		c.Count("journals_with_directed_known_shapes", 1)
 	}
 
 	// a user-opened income account that coincides with a valuation mirror account
